@@ -19,6 +19,7 @@ type typedTerm struct {
 	pkgName string // identifier that names an imported package / pseudo-namespace
 	fn  *ssa.Function
 	recv *typedTerm
+	imeth *types.Func // abstract (interface / type parameter) method
 }
 
 type exprEnv struct {
@@ -29,6 +30,7 @@ type exprEnv struct {
 	vars   map[string]typedTerm
 	result []typedTerm
 	args   []typedTerm // positional parameters (arg0 = receiver)
+	extra  map[string]typedTerm // extra identifiers (printed, nprinted, exitcode)
 	err    string
 	idxTerms []Term // index terms seen (candidates for quantifier patterns)
 	triggers [][]Term // explicit trigger(...) groups of the quantifier being translated
@@ -161,6 +163,9 @@ func (env *exprEnv) tr(x *Expr) typedTerm {
 			if i, err := strconv.Atoi(x.name[3:]); err == nil && i < len(env.args) {
 				return env.args[i]
 			}
+		}
+		if v, ok := env.extra[x.name]; ok {
+			return v
 		}
 		if x.name == "result" && len(env.result) > 0 {
 			return env.result[0]
@@ -385,6 +390,11 @@ func (env *exprEnv) field(base typedTerm, name string) typedTerm {
 }
 
 func (env *exprEnv) method(base typedTerm, name string) typedTerm {
+	// interface or type-parameter receiver: abstract method symbol (same as the translator's invoke)
+	if m := ifaceMethod(base.typ, name); m != nil {
+		b := base
+		return typedTerm{imeth: m, recv: &b}
+	}
 	// method of the receiver's named type
 	t := base.typ
 	ms := env.w.prog.MethodSets.MethodSet(t)
@@ -510,6 +520,19 @@ func (env *exprEnv) call(x *Expr) typedTerm {
 			return env.fail("len of %s", a.typ)
 		case "old":
 			return env.tr(argEs[0])
+		case "ecosystem":
+			// the interface value the CLI passes for an ecosystem package: &pkg.Ecosystem{} boxed
+			if len(argEs) == 1 && argEs[0].op == "str" {
+				if p := env.w.byShort[argEs[0].sval]; p != nil {
+					if o := p.Pkg.Scope().Lookup("Ecosystem"); o != nil {
+						pt := types.NewPointer(o.Type())
+						ps := g.sortOf(pt)
+						inner := "(ptr_" + ps + " " + g.zero(o.Type()) + ")"
+						return typedTerm{t: g.boxTerm(pt, "I_univers_Ecosystem", inner, env.w), typ: env.w.ecosystemIface()}
+					}
+				}
+			}
+			return env.fail("ecosystem(\"pkg\") expects a package name")
 		case "theEcosystem":
 			if env.pkg != nil {
 				if o := env.pkg.Pkg.Scope().Lookup("Ecosystem"); o != nil {
@@ -575,6 +598,9 @@ func (env *exprEnv) call(x *Expr) typedTerm {
 	if c.fn != nil {
 		return env.realCall(c.fn, c.recv, argEs)
 	}
+	if c.imeth != nil {
+		return env.ifaceCall(c.imeth, c.recv, argEs)
+	}
 	if c.pkgName != "" {
 		// library function or other repo package's function: pkg.Name
 		parts := strings.SplitN(c.pkgName, ".", 2)
@@ -603,6 +629,65 @@ func (env *exprEnv) call(x *Expr) typedTerm {
 		return env.fail("unknown function %s", c.pkgName)
 	}
 	return env.fail("cannot call this expression")
+}
+
+// ifaceMethod finds method name in the method set of an interface or of a type parameter's constraint.
+func ifaceMethod(t types.Type, name string) *types.Func {
+	var it *types.Interface
+	switch tt := t.(type) {
+	case *types.TypeParam:
+		it, _ = tt.Constraint().Underlying().(*types.Interface)
+	default:
+		it, _ = t.Underlying().(*types.Interface)
+	}
+	if it == nil {
+		return nil
+	}
+	for i := 0; i < it.NumMethods(); i++ {
+		if it.Method(i).Name() == name {
+			return it.Method(i)
+		}
+	}
+	return nil
+}
+
+func (env *exprEnv) ifaceCall(m *types.Func, recv *typedTerm, argEs []*Expr) typedTerm {
+	g := env.g
+	rs := g.sortOf(recv.typ)
+	args := []Term{recv.t}
+	sorts := []string{rs}
+	sig := m.Type().(*types.Signature)
+	for i, a := range argEs {
+		at := env.tr(a)
+		args = append(args, at.t)
+		if i < sig.Params().Len() {
+			sorts = append(sorts, g.sortOf(sig.Params().At(i).Type()))
+		} else {
+			sorts = append(sorts, g.sortOf(at.typ))
+		}
+	}
+	n := sig.Results().Len()
+	var tup []typedTerm
+	for i := 0; i < n; i++ {
+		name := fmt.Sprintf("M_%s_%s", sanitize(rs), m.Name())
+		if n > 1 {
+			name += fmt.Sprintf("_%d", i)
+		}
+		rsort := g.sortOf(sig.Results().At(i).Type())
+		if !g.funSeen[name] {
+			g.funSeen[name] = true
+			g.declare(fmt.Sprintf("(declare-fun %s (%s) %s)", name, strings.Join(sorts, " "), rsort))
+			g.ifaceAxioms(name, m.Name(), i, sorts, rsort)
+		}
+		tup = append(tup, typedTerm{t: "(" + name + " " + strings.Join(args, " ") + ")", typ: sig.Results().At(i).Type()})
+	}
+	if n == 1 {
+		return tup[0]
+	}
+	if n == 0 {
+		return env.fail("method %s has no result", m.Name())
+	}
+	return typedTerm{t: tup[0].t, typ: tup[0].typ, tup: tup}
 }
 
 func sortType(s string) types.Type {
